@@ -72,7 +72,7 @@ PROPS = {
     "C05": {
         "title": "the end is permanent",
         "rules": [r_m1.rule_atom, r_m1.rule_endguard, r_m1.rule_complete, r_ticket.rule_sticky, r_state.rule_done,
-                  r_ticket.rule_gate, r_state.rule_len, r_paths.rule_paths],
+                  r_ticket.rule_gate, r_state.rule_len, r_paths.rule_paths, r_state.rule_skip],
         "explanation": "ATOM.b: no pull stores to the position counter (it only grows); ENDGUARD: Some only under reserved idx < "
                        "LEN on the index itself with LEN immutable; STICKY: the end flag is only ever stored true; DONE-SET: "
                        "whenever the wrapped iterator returned None the flag is set before the pull returns (the exhausted "
